@@ -37,6 +37,7 @@ type Config struct {
 	MaxConcretize  int
 	MaxPaths       int
 	Deadline       time.Time
+	StopAfterViolation time.Duration // stop exploring a job this long after its start once it has a violation (0: never)
 	SolverPath     string
 	SolverArgs     []string
 	QueryTimeoutMs int
@@ -430,6 +431,12 @@ func (e *Engine) Explore() error {
 				if e.Cfg.MaxPaths > 0 && e.Sum.Paths >= e.Cfg.MaxPaths && !e.stopped {
 					e.stopped = true
 					e.Sum.Incomplete = fmt.Sprintf("path cap %d reached with %d prefixes still queued", e.Cfg.MaxPaths, len(e.queue))
+				}
+				if e.Cfg.StopAfterViolation > 0 && len(e.Sum.ViolCount) > 0 && time.Since(t0) > e.Cfg.StopAfterViolation && !e.stopped {
+					// a violation is in hand and the job keeps growing (a change that breaks a property often
+					// also multiplies paths): what is found gets confirmed and reported now
+					e.stopped = true
+					e.Sum.Incomplete = fmt.Sprintf("stopped %.0fs after the start with violations in hand and %d prefixes still queued", time.Since(t0).Seconds(), len(e.queue))
 				}
 				if !e.Cfg.Deadline.IsZero() && time.Now().After(e.Cfg.Deadline) && !e.stopped {
 					e.stopped = true
